@@ -1,8 +1,10 @@
+#define _GNU_SOURCE
 /* E5: C17 - lha_crc16_buf is CRC-16/ARC for every (state, byte), every (state, 2-byte buffer),
  * every length/alignment/split of four content families. */
 #include "common.h"
 #include "lib/crc16.h"
 #include <sys/mman.h>
+#include <pthread.h>
 #include <unistd.h>
 #include "ref_crc16.h"
 
@@ -14,6 +16,23 @@ static uint8_t family_byte(int fam, size_t i)
 	case 2: return (uint8_t) (i * 7 + 3);
 	default: return (uint8_t) ((i * i * 31 + (i >> 3) * 17 + (i >> 11) * 29 + (i >> 16) * 53 + (i >> 20) * 101) ^ 0xA5);      /* no short period: blocks of 2 KiB, 64 KiB and 1 MiB all differ */
 	}
+}
+
+typedef struct { int id, rounds, bad; } crc_thread_arg;
+static void *crc_thread(void *u)
+{
+	crc_thread_arg *a = (crc_thread_arg *) u;
+	uint8_t buf[96];
+	int r, i;
+	for (r = 0; r < a->rounds; ++r) {
+		int len = 1 + (r * 7 + a->id * 13) % 96;
+		uint16_t c = (uint16_t) (r * 31 + a->id), want;
+		for (i = 0; i < len; ++i) buf[i] = (uint8_t) (r * 17 + i * 29 + a->id * 101);
+		want = ref_crc16(c, buf, (size_t) len);
+		lha_crc16_buf(&c, buf, (size_t) len);
+		if (c != want) ++a->bad;
+	}
+	return NULL;
 }
 
 int main(int argc, char **argv)
@@ -182,6 +201,45 @@ int main(int argc, char **argv)
 			vf_outcome(want);
 		}
 		free(store);
+	} else if (!strcmp(VF.space, "threads")) {
+		/* two threads sum their own buffers into their own state words at the same time: the routine depends on nothing but its
+		 * arguments.  Run free (no scheduler) in the ThreadSanitizer build, which reports any shared variable; results are
+		 * compared with the reference as well. */
+		int rounds = atoi(vf_extra("rounds", "3000"));
+		if (vf_case("two threads, %d sums each of 1..96 bytes", rounds)) {
+			pthread_t th[2];
+			static crc_thread_arg arg[2];
+			int i;
+			for (i = 0; i < 2; ++i) { arg[i].id = i; arg[i].rounds = rounds; arg[i].bad = 0; pthread_create(&th[i], NULL, crc_thread, &arg[i]); }
+			for (i = 0; i < 2; ++i) pthread_join(th[i], NULL);
+			for (i = 0; i < 2; ++i) if (arg[i].bad) vf_viol("crc-threads", "thread %d: %d of %d sums differ from the reference while another thread is summing", i, arg[i].bad, rounds);
+			vf_step(1); vf_nontrivial(4711); vf_outcome(1);
+		}
+	} else if (!strcmp(VF.space, "giant")) {
+		/* one call with 2^31 and more bytes (the length is a size_t): a 1 MiB block mapped again and again gives a buffer of that
+		 * size without the memory; whole == the same bytes fed in 1 MiB pieces */
+		static const uint64_t lens[] = { 0x7FFFFFFFull, 0x80000000ull, 0x80000005ull, 0x100000000ull };
+		unsigned li;
+		int fd = memfd_create("crcblock", 0);
+		uint8_t *blk, *base;
+		size_t mb = 1u << 20, i, nmap = 4096 + 2;
+		if (fd < 0 || ftruncate(fd, (off_t) mb)) { printf("HARNESS memfd\n"); vf_done(); return 0; }
+		blk = mmap(NULL, mb, PROT_READ | PROT_WRITE, MAP_SHARED, fd, 0);
+		for (i = 0; i < mb; ++i) blk[i] = family_byte(3, i);
+		base = mmap(NULL, nmap * mb, PROT_NONE, MAP_PRIVATE | MAP_ANONYMOUS | MAP_NORESERVE, -1, 0);
+		if (base == MAP_FAILED) { printf("HARNESS cannot reserve the address range\n"); vf_done(); return 0; }
+		for (i = 0; i < nmap; ++i) if (mmap(base + i * mb, mb, PROT_READ, MAP_SHARED | MAP_FIXED, fd, 0) == MAP_FAILED) { printf("HARNESS map %zu\n", i); vf_done(); return 0; }
+		for (li = 0; li < sizeof lens / sizeof *lens; ++li) {
+			uint64_t L = lens[li], done = 0;
+			uint16_t whole = 0x1234, pieces = 0x1234;
+			if (L > 0x90000000ull && !VF.thorough) continue;
+			if (!vf_case("one call with %llu bytes against the same bytes in 1 MiB pieces", (unsigned long long) L)) continue;
+			lha_crc16_buf(&whole, base + 3, (size_t) L);
+			while (done < L) { size_t k = L - done < mb ? (size_t) (L - done) : mb; lha_crc16_buf(&pieces, base + 3 + done, k); done += k; }
+			vf_step(vf_mix(whole, L));
+			if (whole != pieces) vf_viol("crc-giant", "len=%llu: one call gives %04x, 1 MiB pieces give %04x", (unsigned long long) L, whole, pieces);
+			vf_nontrivial(L + 5); vf_outcome(pieces);
+		}
 	} else if (!strcmp(VF.space, "alias")) {
 		/* the 16-bit state the routine updates lies INSIDE the bytes it sums (a record whose own checksum field is part of the
 		 * summed range): the result is the CRC of the bytes as they were when the call was made */
